@@ -27,11 +27,29 @@ pub struct Outcome {
     pub states: Vec<u64>,
     pub nontrivial: bool,
     pub log: Vec<String>,
+    /// (step, write statements of the aggregator during that step) when recording
+    pub statements_by_step: Vec<(usize, Vec<String>)>,
 }
 
 /// Execute a scenario: either draw events from the seeded driver or feed a recorded trace.
 pub fn execute(sc: &Scenario, replay: Option<&[Event]>, keep_log: bool) -> Outcome {
+    execute_with(sc, replay, keep_log, &ExecOptions::default())
+}
+
+#[derive(Default, Clone)]
+pub struct ExecOptions {
+    /// record the aggregator's write statements per event (C15 baseline)
+    pub record_statements: bool,
+    /// after the trace: run the quiescence script (no more faults) and evaluate bounded liveness
+    pub quiesce: bool,
+    /// after a replayed prefix: let the seeded driver continue for this many events
+    pub continue_steps: usize,
+    pub continue_salt: u64,
+}
+
+pub fn execute_with(sc: &Scenario, replay: Option<&[Event]>, keep_log: bool, opts: &ExecOptions) -> Outcome {
     let mut w = World::new(sc.clone());
+    w.db_fault.lock().unwrap().record = opts.record_statements;
     w.install_db_hook();
     let mut oracle = Oracle::new(&sc.property);
     let mut trace: Vec<Event> = vec![];
@@ -86,9 +104,28 @@ pub fn execute(sc: &Scenario, replay: Option<&[Event]>, keep_log: bool) -> Outco
             }
         }
     }
+    if opts.continue_steps > 0 && replay.is_some() && oracle.found.is_empty() {
+        let mut driver = Driver::continuation(sc, opts.continue_salt);
+        w.genesis_done = true;
+        for _ in 0..opts.continue_steps {
+            let ev = driver.next(&w);
+            if !step_one(&mut w, &mut oracle, ev, &mut trace, &mut log) {
+                break;
+            }
+        }
+    }
+    if opts.quiesce && oracle.found.is_empty() && !trace.iter().any(|e| matches!(e, Event::CheckLiveness)) {
+        let mut q = driver::Quiescer::new(sc);
+        while let Some(ev) = q.next(&w) {
+            if !step_one(&mut w, &mut oracle, ev, &mut trace, &mut log) {
+                break;
+            }
+        }
+    }
     if oracle.found.is_empty() {
         oracle.finish(&mut w);
     }
+    let statements_by_step = w.statements_by_step.clone();
     // end state summary (never hashes or timestamps)
     if let Some(db) = w.db() {
         let certs = db.certificates();
@@ -128,7 +165,179 @@ pub fn execute(sc: &Scenario, replay: Option<&[Event]>, keep_log: bool) -> Outco
         states: oracle.states.iter().copied().collect(),
         nontrivial,
         log,
+        statements_by_step,
     }
+}
+
+/// C15: fault enumeration. A fault-free baseline history is recorded with the aggregator's write
+/// statements per event; then the same history is re-run once per chosen crash point ("stop
+/// before write statement j of event i": that statement and every later one fail, the node is
+/// restarted on its directory right after the event), followed by the quiescence script and the
+/// bounded-liveness verdict. Transient variants make the statement fail once without a crash.
+fn run_c15(ctx: &RunCtx) -> RunReport {
+    let thorough = ctx.tier == Tier::Thorough;
+    let mut sc = driver::generate_scenario("C15", ctx.seed, ctx.run, thorough);
+    // baseline is fault-free, quorum comfortably reachable, at least one extra entity type
+    sc.faults = world::Faults::default();
+    sc.k = ((sc.m as f64 * sc.phi_f * 0.3).ceil() as u64).clamp(1, sc.m);
+    sc.n_parties = sc.n_parties.max(2);
+    if sc.entity_types.is_empty() {
+        sc.entity_types.push("CDB".into());
+    }
+    sc.steps = sc.steps.min(if thorough { 220 } else { 150 });
+    let mut report = RunReport::new(ctx.run);
+    let record = ExecOptions { record_statements: true, quiesce: false, ..Default::default() };
+    let base = execute_with(&sc, None, false, &record);
+    if let Some(f) = base.found.first() {
+        if f.clause == "harness" {
+            eprintln!("HARNESS-ERROR: run {}: {}", ctx.run, f.detail);
+            std::process::exit(2);
+        }
+        // the fault-free baseline itself violates a C15 clause
+        report.violations.push(Violation { property: "C15".into(), clause: f.clause.clone(), detail: format!("fault-free baseline, step {}: {}", f.step, f.detail), finding: None });
+        report.replay = Some(json!({"scenario": sc, "trace": base.trace, "quiesce": false}));
+        return report;
+    }
+    // candidate crash points: (index in trace, j-th write statement of that event, label)
+    // only events after the operator's bootstrap script, and only the aggregator's own operations
+    // (ticks, background artifact task, signature deliveries): these contain every persistence
+    // step of certificate creation, artifact production and buffered-signature hand-over
+    let bootstrap_len = 4 * sc.n_parties + 11;
+    let mut points: Vec<(usize, u64, String)> = vec![];
+    for (step, labels) in &base.statements_by_step {
+        let idx = *step - 1;
+        if idx < bootstrap_len || idx >= base.trace.len() {
+            continue;
+        }
+        let relevant = match &base.trace[idx] {
+            Event::Tick | Event::Background { .. } => true,
+            Event::Deliver { id, .. } => base.trace.iter().any(|e| matches!(e, Event::Sign { id: sid, .. } if sid == id)),
+            _ => false,
+        };
+        if !relevant {
+            continue;
+        }
+        for (j, l) in labels.iter().enumerate() {
+            points.push((idx, j as u64 + 1, l.clone()));
+        }
+    }
+    let mut rng = sim_core::Rng::for_run(ctx.seed, "c15-points", ctx.run);
+    let interesting = |l: &str| {
+        ["certificate", "open_message", "signed_entity", "single_signature", "buffered_single_signature", "transaction"].iter().any(|t| l.contains(t))
+    };
+    let mut chosen: Vec<(usize, u64, String, bool)> = vec![];
+    let mut by_label: std::collections::BTreeMap<String, Vec<usize>> = Default::default();
+    for (i, p) in points.iter().enumerate() {
+        if interesting(&p.2) {
+            by_label.entry(p.2.clone()).or_default().push(i);
+        }
+    }
+    for (_, idxs) in &by_label {
+        let mut picks = vec![idxs[0]];
+        if idxs.len() > 1 {
+            picks.push(idxs[1 + rng.index(idxs.len() - 1)]);
+        }
+        if thorough {
+            for _ in 0..6 {
+                picks.push(*rng.pick(idxs));
+            }
+        }
+        picks.sort_unstable();
+        picks.dedup();
+        for i in picks {
+            let p = &points[i];
+            chosen.push((p.0, p.1, p.2.clone(), true));
+            if rng.chance(0.35) {
+                chosen.push((p.0, p.1, p.2.clone(), false));
+            }
+        }
+    }
+    // a few points anywhere (epoch initialisation, registration ...)
+    for _ in 0..(if thorough { 12 } else { 4 }) {
+        if points.is_empty() {
+            break;
+        }
+        let p = rng.pick(&points).clone();
+        chosen.push((p.0, p.1, p.2, rng.chance(0.7)));
+    }
+    report.counters = base.counters.clone();
+    report.count("c15_baseline_write_statements", points.len() as u64);
+    report.count("c15_distinct_statement_labels", by_label.len() as u64);
+    let mut fp = Fingerprint::new();
+    fp.add_u64(base.fingerprint);
+    let mut digest = Fingerprint::new();
+    digest.add_u64(base.digest);
+    let mut states: std::collections::BTreeSet<u64> = base.states.iter().copied().collect();
+    let mut variants = 0u64;
+    let mut sample_variant = None;
+    // optional second crash later in the same history (repeated stops)
+    for (at, j, label, crash) in chosen {
+        // the history up to and including the interrupted event, then the seeded driver goes on
+        // (fault-free), then quiescence
+        let mut trace: Vec<Event> = base.trace[..at].to_vec();
+        trace.push(Event::ArmDbFault { statement: j, crash });
+        trace.push(base.trace[at].clone());
+        let opts = ExecOptions {
+            record_statements: false,
+            quiesce: true,
+            continue_steps: 40 + rng.index(60),
+            continue_salt: rng.next_u64(),
+        };
+        // repeated stops: a second crash shortly after the restart
+        if rng.chance(0.25) {
+            trace.push(Event::ArmDbFault { statement: 1 + rng.below(6), crash: true });
+            trace.push(Event::Tick);
+            report.hit("c15_variants_with_two_stops");
+        }
+        let out = execute_with(&sc, Some(&trace), false, &opts);
+        variants += 1;
+        report.hit(if crash { "c15_crash_variants" } else { "c15_transient_error_variants" });
+        report.hit(&format!("crashpoint {label}"));
+        for (k, v) in &out.counters {
+            if k.starts_with("fault_") || k.starts_with("probe_") {
+                report.count(k, *v);
+            }
+        }
+        fp.add(&label).add_u64(out.fingerprint);
+        digest.add_u64(out.digest);
+        states.extend(out.states.iter().copied());
+        if sample_variant.is_none() {
+            sample_variant = Some(json!({"crash_before": label, "event_index": at, "statement": j, "crash": crash}));
+        }
+        if let Some(first) = out.found.first() {
+            if first.clause == "harness" {
+                eprintln!("HARNESS-ERROR: run {}: {}", ctx.run, first.detail);
+                std::process::exit(2);
+            }
+            // the executed trace (with the quiescence script) is the replay
+            let full = execute_with(&sc, Some(&out.trace), true, &ExecOptions::default());
+            let reproduced = full.found.iter().any(|f| f.clause == first.clause);
+            let (trace, log, found) = if reproduced {
+                (out.trace.clone(), full.log, full.found)
+            } else {
+                (trace.clone(), vec![], out.found.clone())
+            };
+            for f in &found {
+                report.violations.push(Violation {
+                    property: "C15".into(),
+                    clause: f.clause.clone(),
+                    detail: format!("stop before `{label}` (event {at}, {}): step {}: {}", if crash { "crash + restart" } else { "transient error" }, f.step, f.detail),
+                    finding: None,
+                });
+            }
+            report.replay = Some(json!({"scenario": sc, "trace": trace, "log": log, "quiesce": !reproduced}));
+            break;
+        }
+    }
+    report.count("c15_variants", variants);
+    report.fingerprint = fp.value();
+    report.digest = digest.value();
+    report.states = states.into_iter().collect();
+    report.nontrivial = variants > 0 && report.counters.get("fault_crash_at_statement").copied().unwrap_or(0) > 0;
+    if ctx.want_sample {
+        report.sample = Some(json!({"run": ctx.run, "scenario": sc, "baseline_events": base.trace.len(), "write_statements": points.len(), "variants": variants, "first_variant": sample_variant}));
+    }
+    report
 }
 
 struct NetEngine;
@@ -171,8 +380,10 @@ impl Engine for NetEngine {
             return None;
         }
         let runs = match (property, tier) {
-            (_, Tier::Quick) => 160,
-            (_, Tier::Thorough) => 12_000,
+            ("C15", Tier::Quick) => 48,
+            ("C15", Tier::Thorough) => 2_000,
+            (_, Tier::Quick) => 480,
+            (_, Tier::Thorough) => 24_000,
         };
         Some(Plan {
             runs,
@@ -194,6 +405,9 @@ impl Engine for NetEngine {
     }
 
     fn run(&self, ctx: &RunCtx) -> RunReport {
+        if ctx.property == "C15" {
+            return run_c15(ctx);
+        }
         let sc = driver::generate_scenario(&ctx.property, ctx.seed, ctx.run, ctx.tier == Tier::Thorough);
         let out = execute(&sc, None, false);
         let mut report = RunReport::new(ctx.run);
@@ -262,7 +476,8 @@ impl Engine for NetEngine {
             eprintln!("HARNESS-ERROR: bad replay trace: {e}");
             std::process::exit(2)
         });
-        let out = execute(&sc, Some(&trace), true);
+        let opts = ExecOptions { quiesce: doc["quiesce"].as_bool().unwrap_or(false), ..Default::default() };
+        let out = execute_with(&sc, Some(&trace), true, &opts);
         if std::env::var_os("VERIF_SHOW_LOG").is_some() {
             for l in &out.log {
                 println!("{l}");
